@@ -473,6 +473,26 @@ def upper_bound_guards(b, target, srcs):
     return out
 
 
+def ok_payloads(b, call_blk):
+    """locals that hold the Ok value of the Result returned by the call ending block `call_blk` (through `?`, unwrap, expect)"""
+    copies = b.whole_copies({b.term(call_blk)["dest"]["l"]})
+    out = set()
+    for i, t in b.calls(r"Try>::branch$", r"Result::<.*>::(unwrap|expect)$"):
+        if not t["args"] or op_local(t["args"][0]) not in copies or t["args"][0].get("mv", t["args"][0].get("cp", {})).get("p"):
+            continue
+        y = t["dest"]["l"]
+        if call_is(t, r"Try>::branch$"):
+            for blk in b.blocks:
+                for st in blk["s"]:
+                    if st["k"] == "assign" and st["rv"]["k"] == "use":
+                        pl = op_place(st["rv"]["op"])
+                        if pl is not None and pl["l"] == y and any(isinstance(e, dict) and e.get("n") == "Continue" for e in pl.get("p", [])) and not st["lhs"].get("p"):
+                            out.add(st["lhs"]["l"])
+        else:
+            out.add(y)
+    return b.whole_copies(out) if out else out
+
+
 def place_fields(pl):
     """list of field names in a place projection"""
     return [e.get("n") for e in pl.get("p", []) if isinstance(e, dict) and "f" in e]
@@ -690,24 +710,23 @@ class Body:
         seen = set()
         st = []
 
-        def first_field(p):
-            pr = p.get("p", [])
-            if pr and isinstance(pr[0], dict) and "f" in pr[0]:
-                return pr[0]["f"]
-            return None
+        def field_path(p):
+            """the field indices of a place's projections, outermost first (derefs and downcasts do not count)"""
+            return tuple(e["f"] for e in p.get("p", []) if isinstance(e, dict) and "f" in e)
 
-        def push_place(p):
-            st.append((p["l"], first_field(p)))
+        def push_place(p, rest=(), okp=False):
+            fp = field_path(p)
+            st.append((p["l"], fp + tuple(rest), okp and not fp))
             for e in p.get("p", []):
                 if isinstance(e, dict) and "f" in e and e.get("n"):
                     out.add(("field", e["n"]))
                 if isinstance(e, dict) and "idx" in e:
-                    st.append((e["idx"], None))
+                    st.append((e["idx"], (), False))
 
-        def push_op(op):
+        def push_op(op, rest=(), okp=False):
             p = op_place(op)
             if p is not None:
-                push_place(p)
+                push_place(p, rest, okp)
             else:
                 c = op_const(op)
                 if c is not None:
@@ -721,16 +740,19 @@ class Body:
                         out.add(("const", c.get("ty")))
 
         if isinstance(op_or_local, int):
-            st.append((op_or_local, None))
+            st.append((op_or_local, (), False))
         else:
             push_op(op_or_local)
         defs = self.defs()
         mutref = self._mutref_calls() if mut_ref_args else {}
         while st and len(seen) < max_nodes:
-            l, fld = st.pop()
-            if (l, fld) in seen:
+            # okp: the value read is the payload of the Ok / Some that a `?` let through -- a definition that builds the
+            # residual (from_residual, an Err / None / Break aggregate) is not where it comes from
+            l, path, okp = st.pop()
+            path = path[:4]
+            if (l, path, okp) in seen:
                 continue
-            seen.add((l, fld))
+            seen.add((l, path, okp))
             if 1 <= l <= self.arg_count:
                 out.add(("param", l))
             ds = defs.get(l, [])
@@ -741,10 +763,14 @@ class Body:
             for d in ds:
                 if d[0] == "call":
                     _, bb, t = d
+                    if okp and call_is(t, r"FromResidual<.*>>::from_residual$"):
+                        continue
                     out.add(("call", bb))
                     if through_calls and not (stop_call and stop_call(t)):
+                        # `x?`: the payload of Continue(v) is the payload of the Ok(v) / Some(v) that was branched on
+                        keep = path if (path and t["args"] and call_is(t, r"Try>::branch$")) else ()
                         for a in t["args"]:
-                            push_op(a)
+                            push_op(a, keep, bool(keep))
                         # accessor summaries: fields of the receiver that the (crate-local) callee's result is read from
                         for n in self.F.ret_fields(t):
                             out.add(("field", n))
@@ -752,22 +778,35 @@ class Body:
                     _, bb, j, s = d
                     if s["k"] != "assign":
                         continue
-                    lf = first_field(s["lhs"])
-                    if fld is not None and lf is not None and lf != fld:
-                        continue  # assignment to another field of this local
+                    lp = field_path(s["lhs"])
+                    rest = path
+                    if lp:
+                        # assignment to a part of this local: relevant when it is the part read, or contains / is contained in it
+                        n = min(len(lp), len(path))
+                        if lp[:n] != path[:n]:
+                            continue
+                        rest = path[len(lp):]
                     rv = s["rv"]
                     k = rv["k"]
                     if k == "agg":
-                        single = rv["ak"] == "tuple" or (rv["ak"] == "adt" and len(self.F_enum_variants(rv)) <= 1)
-                        if fld is not None and lf is None and single and fld < len(rv["fields"]):
-                            push_op(rv["fields"][fld])
+                        if okp and not lp and rv.get("variant") in ("Err", "None", "Break"):
+                            continue
+                        if rest and rest[0] < len(rv["fields"]) and rv["ak"] in ("tuple", "adt", "closure"):
+                            push_op(rv["fields"][rest[0]], rest[1:])
+                        elif rest and rv["ak"] in ("tuple", "adt"):
+                            pass    # the variant built here has no such field: not the value read
                         else:
                             for fop in rv["fields"]:
                                 push_op(fop)
-                    elif k in ("use", "cast", "un", "repeat", "bin"):
+                    elif k in ("use", "cast"):
+                        for o in rv_operands(rv):
+                            push_op(o, rest if k == "use" else (), okp and k == "use" and not lp)
+                    elif k in ("un", "repeat", "bin"):
                         for o in rv_operands(rv):
                             push_op(o)
-                    elif k in ("ref", "rawptr", "discr"):
+                    elif k in ("ref", "rawptr"):
+                        push_place(rv["pl"], rest, okp and not lp)
+                    elif k == "discr":
                         push_place(rv["pl"])
             for bb in mutref.get(l, ()):
                 out.add(("call", bb))
